@@ -23,7 +23,9 @@
 (*   alive0  is_alive() immediately after construction / restart                            *)
 (*   waited  "T" iff the final wait() returned True ("none": not the last incarnation)      *)
 (*   result  worker.result after that wait: [k |-> "val"|"none"|"other"|"na", n |-> Nat]    *)
-(*   fault   "none" | "poison" | "stuck" | "kill" | "term"  what the scenario did to it     *)
+(*   fault   "none" | "poison" | "stuck" | "kill" | "term" | "busy" | "slowres"             *)
+(*           what the scenario did to it ("busy": a target with a blocking step that ends   *)
+(*           by itself; "slowres": a result that the parent side takes long to rebuild)     *)
 (*   id, name, userid   identity (ids numbered by first appearance)                         *)
 (*   endk    "final" | "restarted"; oldos = OS liveness ("dead"|"alive") of this            *)
 (*           incarnation's child right after the restart() that replaced it                 *)
@@ -43,8 +45,9 @@ Keys(s) == {p[1] : p \in Range(s)}
 KwMerge(d, x) == {p \in Range(d) : p[1] \notin Keys(x)} \cup Range(x)
 
 SpecTag(s) == CASE s = "@none" -> "none" [] s = "@zero" -> "zero" [] s = "@empty" -> "empty"
-                [] s = "@big" -> "big" [] s = "@stuck" -> "released" [] OTHER -> "echo"
-IsSpecial(a) == Len(a) > 0 /\ a[1] \in {"@none", "@zero", "@empty", "@big", "@stuck"}
+                [] s = "@big" -> "big" [] s = "@stuck" -> "released" [] s = "@busy" -> "busydone"
+                [] s = "@slowres" -> "slow" [] OTHER -> "echo"
+IsSpecial(a) == Len(a) > 0 /\ a[1] \in {"@none", "@zero", "@empty", "@big", "@stuck", "@busy", "@slowres"}
 
 \* v is what the target returns for the enqueue e on pristine defaults d / dk
 ValueOK(v, d, dk, e) ==
